@@ -18,7 +18,7 @@ def check(c):
         for i in range(4):
             # (the larger "-big" universe has ~19 000 requests per block: too many ordered pairs; thorough uses more
             #  configurations and seeds instead)
-            shards.append(["-mode", "universe", "-configs", "16" if thorough else "9", "-shard", str(i), "-nshards", "4"])
+            shards.append(["-mode", "universe", "-configs", "16" if thorough else "10", "-shard", str(i), "-nshards", "4"])
     tot = servelib.run_serve(c, "C10", shards, "two requests agreeing on the Vary-listed headers were treated differently, or a pre-set Vary value was lost")
     if tot["a"] == 0:
         raise Infra("vacuous C10 run: %r" % tot)
